@@ -54,9 +54,10 @@ def fn_bodies(src):
 
 ORD = {"Relaxed": "relaxed", "Acquire": "acquire", "Release": "release", "AcqRel": "acqRel", "SeqCst": "seqCst"}
 
-def atomic_sites(src):
+def atomic_sites(src, with_lines=False):
     sites = []
-    for name, body, _ in fn_bodies(src):
+    for name, body, start in fn_bodies(src):
+        body_start = src.find("{", start)
         idx = 0
         for m in re.finditer(r"\.\s*(load|store|compare_exchange_weak|compare_exchange|fetch_add|fetch_sub)\s*\(", body):
             # match the argument list
@@ -72,7 +73,11 @@ def atomic_sites(src):
             # which atomic: a short description of the receiver
             recv = body[max(0, m.start() - 60):m.start()]
             recv = re.sub(r"\s+", "", recv).split(";")[-1].split("{")[-1].split("=")[-1].split("(")[-1]
-            sites.append((name, idx, m.group(1), [ORD.get(o, "relaxed") for o in ords], recv[-40:]))
+            line = src.count("\n", 0, body_start + m.start()) + 1
+            if with_lines:
+                sites.append((name, idx, m.group(1), [ORD.get(o, "relaxed") for o in ords], recv[-40:], line))
+            else:
+                sites.append((name, idx, m.group(1), [ORD.get(o, "relaxed") for o in ords], recv[-40:]))
             idx += 1
     return sites
 
@@ -130,6 +135,17 @@ def main():
 
     # ---- orderings
     sites = atomic_sites(sync)
+    try:
+        # call-site table with source lines (comments are NOT stripped here so that line numbers are the file's);
+        # used only to name hang / crash sites in reports
+        raw = read("sync.rs")
+        blank = re.sub(r"//[^\n]*", lambda mm: " " * len(mm.group(0)), raw)
+        os.makedirs(os.path.join(VERIF, "work"), exist_ok=True)
+        json.dump([[a, b, c, f] for (a, b, c, d, e, f) in atomic_sites(blank, True)], open(os.path.join(VERIF, "work", "sites.json"), "w"))
+        fnl = [(src_name, blank.count("\n", 0, st) + 1) for src_name, _, st in fn_bodies(blank)]
+        json.dump(fnl, open(os.path.join(VERIF, "work", "fnlines.json"), "w"))
+    except Exception as e:
+        info["sites_json_error"] = str(e)
     if sites:
         lines = ["/- GENERATED by tools/extract.py from rarena-allocator/src/sync.rs — do not edit -/",
                  "namespace Rarena.Gen", "",
